@@ -62,6 +62,8 @@ def build(v, env, ghost_fn):
             return struct.unpack('<d', v['$float_bits'].to_bytes(8, 'little'))[0]
         if '$tuple' in v:
             return tuple(build(x, env, ghost_fn) for x in v['$tuple'])
+        if '$range' in v:
+            return range(v['$range'][0], v['$range'][1])
         if '$enum' in v:
             return getattr(_cls(v['$enum']), v['member'])
         if '$flag' in v:
@@ -119,7 +121,18 @@ def replay(doc, ghost_override=None):
     cmod = importlib.import_module(doc['contract_module'])
     C = getattr(cmod, doc['contract'])
     env = {}
-    args = {k: build(v, env, ghost_fn) for k, v in doc['args'].items()}
+    pending = dict(doc['args'])
+    built = {}
+    for _ in range(len(pending) + 1):          # a '$ref' may point at an argument built later
+        for k in list(pending):
+            try:
+                built[k] = build(pending[k], env, ghost_fn)
+                del pending[k]
+            except KeyError:
+                pass
+    if pending:
+        raise KeyError(f'unresolved $ref in arguments {sorted(pending)}')
+    args = {k: built[k] for k in doc['args']}
     out = {'contract': doc['contract'], 'obligation': doc.get('obligation'), 'inputs': {k: show(v) for k, v in args.items()}}
 
     def spec(fname, extra=None):
@@ -134,6 +147,8 @@ def replay(doc, ghost_override=None):
                 kw[n] = args[n]
             elif extra and n in extra:
                 kw[n] = extra[n]
+            elif n == 'self':
+                kw[n] = None        # contract of a module-level function
         return fn(**kw)
 
     pre = spec('pre')
